@@ -20,7 +20,11 @@ ASSUMPTIONS = ['whisper and ceres are absent: stand-in modules record file-syste
                'is reproduced from upstream ceres.CeresTree and is an assumption',
                'NUL excluded (rejected by the OS before any path logic)']
 
-CLASSICS = ['../x', '/abs', '/etc/passwd', 'a/../../b', '..;a=b', ';a=../..', '....//....//x', '/../../x', '//x', '/.x',
+# environment / home expansion syntaxes; VERIF_DOTS, VERIF_ABS and VERIF_NAME are planted in the worker's environment
+SHELLISH = ['a.$VERIF_DOTS.$VERIF_DOTS.$VERIF_DOTS.x', 'a.${VERIF_DOTS}.${VERIF_DOTS}.${VERIF_DOTS}.x', '$VERIF_ABS', 'x.$VERIF_ABS.y', 'servers.$VERIF_NAME.load',
+            'servers.graphite01.load', 'servers.${VERIF_NAME}.load', '$HOME', 'a.$HOME', '${HOME}.x', '~', '~.x', '~root.x', 'a.~.b', '%VERIF_DOTS%', 'a.%VERIF_DOTS%.%VERIF_DOTS%.b',
+            'x;t=$VERIF_DOTS/$VERIF_DOTS/$VERIF_DOTS/y', 'x;t=${VERIF_ABS}', 'a.$(id).b', 'a.`id`.b', 'a.$VERIF_UNSET.b', '$', '$$', 'a.$.b']
+CLASSICS = SHELLISH + ['../x', '/abs', '/etc/passwd', 'a/../../b', '..;a=b', ';a=../..', '....//....//x', '/../../x', '//x', '/.x',
             './x', 'a/./b', '~/x', '~root', '_tagged/../../x', '_tagged.aaa.bbb.x', 'a;b=/../../..', 'a;b=/abs',
             '/;a=b', '../..;a=b', 'a.b./../..', '.', '..', '...', '/', '//', 'a/', '/a', 'a//b', 'a/..', '\\..\\x',
             'a;b=c/../../../../../../x', '..a', 'a..', '.a', 'a.', ';', ';=', '=;', 'a;', 'a;b', 'a;=b', 'a;b=',
@@ -66,6 +70,8 @@ def run_config(cfg, res):
     return
   r = gen.rng(cfg['seed'], 'C14', cfg['name'])
   first = cfg['first']
+  os.environ.update(VERIF_DOTS='..', VERIF_ABS='/tmp/verif-abs', VERIF_NAME='graphite01')
+  os.environ.pop('VERIF_UNSET', None)
 
   def names():
     if first == ALPHA[0]:
